@@ -945,6 +945,78 @@ macro_rules! rel_cam {
         }
     }};
 }
+macro_rules! rel_rot {
+    ($o:ident, $r:ident, $S:ident, $is32:expr, $fm:expr, $V3:ident, $M3:ident, $M4:ident, $A3:ident, $Q:ident, [$($M3X:ident),*]) => {{
+        use glam::EulerRot as E;
+        let is32 = $is32;
+        let w = |x: $S| -> Value { wf(x.to_bits() as u64, is32) };
+        let wv = |v: &[$S]| -> Value { Value::Array(v.iter().map(|x| w(*x)).collect()) };
+        let wm3 = |c: &[$S]| -> Value { Value::Array(vec![wv(&c[0..3]), wv(&c[3..6]), wv(&c[6..9])]) };
+        let lin4 = |m: &$M4| -> Vec<$S> { let c = m.to_cols_array(); vec![c[0], c[1], c[2], c[4], c[5], c[6], c[8], c[9], c[10]] };
+        let orders: [(&str, E); 24] = [("XYZ", E::XYZ), ("XYX", E::XYX), ("XZY", E::XZY), ("XZX", E::XZX), ("YZX", E::YZX), ("YZY", E::YZY), ("YXZ", E::YXZ),
+            ("YXY", E::YXY), ("ZXY", E::ZXY), ("ZXZ", E::ZXZ), ("ZYX", E::ZYX), ("ZYZ", E::ZYZ), ("ZYXEx", E::ZYXEx), ("XYXEx", E::XYXEx), ("YZXEx", E::YZXEx),
+            ("XZXEx", E::XZXEx), ("XZYEx", E::XZYEx), ("YZYEx", E::YZYEx), ("ZXYEx", E::ZXYEx), ("YXYEx", E::YXYEx), ("YXZEx", E::YXZEx), ("ZXZEx", E::ZXZEx),
+            ("XYZEx", E::XYZEx), ("ZYZEx", E::ZYZEx)];
+        let elem = |ax: u8, a: $S| -> $M3 { match ax { b'X' => $M3::from_rotation_x(a), b'Y' => $M3::from_rotation_y(a), _ => $M3::from_rotation_z(a) } };
+        for (name, ord) in orders {
+            let nb = name.as_bytes();
+            let a = ((unit_f64($r) * 2.0 - 1.0) * 3.1) as $S;
+            let c = ((unit_f64($r) * 2.0 - 1.0) * 3.1) as $S;
+            // the middle angle keeps 0.15 rad away from the variant's gimbal lock
+            let b = if nb[0] == nb[2] { (0.15 + unit_f64($r) * 2.84) as $S * if $r.below(2) == 0 { 1.0 } else { -1.0 } } else { ((unit_f64($r) * 2.0 - 1.0) * 1.42) as $S };
+            let es = Value::Array(vec![wm3(&elem(nb[0], a).to_cols_array()), wm3(&elem(nb[1], b).to_cols_array()), wm3(&elem(nb[2], c).to_cols_array())]);
+            let base = |ty: &str| json!({"k": "rel", "op": "euler", "f": $fm, "ty": ty, "order": name, "angles": wv(&[a, b, c]), "e": es.clone()});
+            let m = $M3::from_euler(ord, a, b, c);
+            let (a2, b2, c2) = m.to_euler(ord);
+            let mut ev = base(stringify!($M3));
+            ev["got"] = wm3(&m.to_cols_array());
+            ev["back"] = wm3(&$M3::from_euler(ord, a2, b2, c2).to_cols_array());
+            $o.emit(ev);
+            let q = $Q::from_euler(ord, a, b, c);
+            let (a3, b3, c3) = q.to_euler(ord);
+            let mut ev = base(stringify!($Q));
+            ev["got"] = wm3(&$M3::from_quat(q).to_cols_array());
+            ev["back"] = wm3(&$M3::from_quat($Q::from_euler(ord, a3, b3, c3)).to_cols_array());
+            $o.emit(ev);
+            let m4 = $M4::from_euler(ord, a, b, c);
+            let (a4, b4, c4) = m4.to_euler(ord);
+            let mut ev = base(stringify!($M4));
+            ev["got"] = wm3(&lin4(&m4));
+            ev["back"] = wm3(&lin4(&$M4::from_euler(ord, a4, b4, c4)));
+            $o.emit(ev);
+        }
+        // ---- quaternion <-> matrix on random rotations (small, generic and nearly half-turn rotations: all four extraction branches)
+        for _ in 0..4 {
+            let axis = $V3::new((unit_f64($r) * 2.0 - 1.0) as $S, (unit_f64($r) * 2.0 - 1.0) as $S, (unit_f64($r) * 2.0 - 1.0) as $S).normalize();
+            let ang: $S = match $r.below(5) { 0 => (unit_f64($r) * 6.28 - 3.14) as $S, 1 => 3.1 + (unit_f64($r) * 0.08) as $S, 2 => (unit_f64($r) * 1e-3) as $S, 3 => 2.0 + unit_f64($r) as $S, _ => -(2.2 + unit_f64($r) as $S) };
+            if !axis.is_finite() { continue; }
+            let q = $Q::from_axis_angle(axis, ang);
+            let ev = |ty: &str, sp: &str, q: &$Q, m: &[$S]| json!({"k": "rel", "op": "quat_mat", "f": $fm, "ty": ty, "sp": sp, "q": wv(&q.to_array()), "m": wm3(m)});
+            let m3 = $M3::from_quat(q);
+            $o.emit(ev(stringify!($M3), "Mat3::from_quat", &q, &m3.to_cols_array()));
+            $o.emit(ev(stringify!($M4), "Mat4::from_quat", &q, &lin4(&$M4::from_quat(q))));
+            $o.emit(ev(stringify!($A3), "Affine3::from_quat", &q, &$A3::from_quat(q).to_cols_array()[0..9]));
+            $( $o.emit(ev(stringify!($M3X), "Mat3A::from_quat", &q, &$M3X::from_quat(q).to_cols_array())); )*
+            // axis-angle constructors of the matrix types against the quaternion one; axis-angle extraction rebuilds the rotation
+            $o.emit(ev(stringify!($M3), "Mat3::from_axis_angle", &q, &$M3::from_axis_angle(axis, ang).to_cols_array()));
+            $o.emit(ev(stringify!($M4), "Mat4::from_axis_angle", &q, &lin4(&$M4::from_axis_angle(axis, ang))));
+            $o.emit(ev(stringify!($A3), "Affine3::from_axis_angle", &q, &$A3::from_axis_angle(axis, ang).to_cols_array()[0..9]));
+            $( $o.emit(ev(stringify!($M3X), "Mat3A::from_axis_angle", &q, &$M3X::from_axis_angle(axis, ang).to_cols_array())); )*
+            for qq in [q, -q] {
+                let (ax2, an2) = qq.to_axis_angle();
+                $o.emit(ev(stringify!($Q), "from_axis_angle(to_axis_angle(q))", &$Q::from_axis_angle(ax2, an2), &m3.to_cols_array()));
+                $o.emit(ev(stringify!($Q), "from_scaled_axis(to_scaled_axis(q))", &$Q::from_scaled_axis(qq.to_scaled_axis()), &m3.to_cols_array()));
+            }
+            // matrix -> quaternion: the matrix is the operand, the quaternion the result
+            $o.emit(ev(stringify!($Q), "Quat::from_mat3", &$Q::from_mat3(&m3), &m3.to_cols_array()));
+            let m4 = $M4::from_quat(q);
+            $o.emit(ev(stringify!($Q), "Quat::from_mat4", &$Q::from_mat4(&m4), &lin4(&m4)));
+            let a3 = $A3::from_quat(q);
+            $o.emit(ev(stringify!($Q), "Quat::from_affine3", &$Q::from_affine3(&a3), &a3.to_cols_array()[0..9]));
+            $( let mx = $M3X::from_quat(q); $o.emit(ev(stringify!($Q), "Quat::from_mat3a", &$Q::from_mat3a(&mx), &mx.to_cols_array())); )*
+        }
+    }};
+}
 fn rec_rel(o: &mut Out, r: &mut Rng, draws: u64) {
     use glam::*;
     for _ in 0..draws {
@@ -959,7 +1031,71 @@ fn rec_rel(o: &mut Out, r: &mut Rng, draws: u64) {
         rel_quat!(o, r, DQuat, DVec3, f64, false, 64);
         rel_cam!(o, r, f32, true, 32, Vec3, Mat3, Mat4, Affine3A, Quat);
         rel_cam!(o, r, f64, false, 64, DVec3, DMat3, DMat4, DAffine3, DQuat);
+        rel_rot!(o, r, f32, true, 32, Vec3, Mat3, Mat4, Affine3A, Quat, [Mat3A]);
+        rel_rot!(o, r, f64, false, 64, DVec3, DMat3, DMat4, DAffine3, DQuat, []);
     }
+}
+
+// ------------------------------------------------------------------------------------------ access histories (Trace_C17)
+fn hexs(b: &[u64]) -> Value { Value::Array(b.iter().map(|x| json!(format!("{:#x}", x))).collect()) }
+fn rec_acc_ty<V: hx::acc::Acc>(o: &mut Out, r: &mut Rng, steps: u64) {
+    use hx::acc::Obs;
+    use hx::tv::{Scalar, TV};
+    let n = V::N;
+    let mask = <V::S as Scalar>::SC.mask();
+    // any bit pattern: NaN payloads, -0, subnormals, extremes
+    let rb = |r: &mut Rng| -> u64 { match r.below(6) { 0 => 0, 1 => mask, 2 => (mask >> 1) + 1, _ => r.next() & mask } };
+    let start: Vec<u64> = (0..n).map(|_| rb(r)).collect();
+    let vars = V::variants(&start);
+    let mut v = vars[(r.next() as usize) % vars.len()];
+    o.emit(json!({"k": "acc", "op": "begin", "ty": V::NAME, "n": n, "obs": hexs(&v.to_bits())}));
+    let ctors = ["new", "from_array", "from_slice", "from_array_trait", "from_tuple", "free_fn"];
+    let writes = ["field", "index_mut", "as_mut", "with"];
+    let reads = ["field", "index", "to_array", "write_to_slice", "into_array", "into_tuple", "as_ref"];
+    for _ in 0..steps {
+        match r.below(10) {
+            0 => {
+                let path = ctors[r.below(ctors.len() as u64) as usize];
+                let vals: Vec<u64> = (0..n).map(|_| rb(r)).collect();
+                let l: Vec<V::S> = vals.iter().map(|x| <V::S as Scalar>::from_u64(*x)).collect();
+                if let Some(nv) = V::ctor(path, &l) {
+                    v = nv;
+                    o.emit(json!({"k": "acc", "op": "ctor", "ty": V::NAME, "path": path, "vals": hexs(&vals), "obs": hexs(&v.to_bits())}));
+                }
+            }
+            1 => {
+                let val = rb(r);
+                if let Some(nv) = V::ctor("splat", &[<V::S as Scalar>::from_u64(val)]) {
+                    v = nv;
+                    o.emit(json!({"k": "acc", "op": "splat", "ty": V::NAME, "val": format!("{:#x}", val), "obs": hexs(&v.to_bits())}));
+                }
+            }
+            2..=5 => {
+                let path = writes[r.below(writes.len() as u64) as usize];
+                let lane = r.below(n as u64) as usize;
+                let val = rb(r);
+                if v.write(path, lane, <V::S as Scalar>::from_u64(val)) {
+                    o.emit(json!({"k": "acc", "op": "write", "ty": V::NAME, "path": path, "lane": lane, "val": format!("{:#x}", val), "obs": hexs(&v.to_bits())}));
+                }
+            }
+            _ => {
+                let path = reads[r.below(reads.len() as u64) as usize];
+                if let Some(Obs::Lanes(l)) = v.read(path) {
+                    let ob: Vec<u64> = l.iter().map(|x| x.to_u64()).collect();
+                    o.emit(json!({"k": "acc", "op": "read", "ty": V::NAME, "path": path, "obs": hexs(&ob)}));
+                }
+            }
+        }
+    }
+}
+fn rec_acc(o: &mut Out, r: &mut Rng, draws: u64) {
+    use glam::*;
+    macro_rules! one { ($V:ident) => { rec_acc_ty::<$V>(o, r, 12 * draws); }; }
+    hx::for_tv2!(one);
+    hx::for_tv3!(one);
+    hx::for_tv4!(one);
+    one!(Quat);
+    one!(DQuat);
 }
 
 // ------------------------------------------------------------------------------------------ replay of one event
@@ -1081,6 +1217,7 @@ fn main() {
         "poly" => rec_poly(&mut o, &mut r, draws),
         "mat" => rec_mat(&mut o, &mut r, draws),
         "rel" => rec_rel(&mut o, &mut r, draws),
+        "acc" => rec_acc(&mut o, &mut r, draws),
         _ => panic!("mode"),
     }
     o.w.flush().unwrap();
